@@ -31,6 +31,7 @@ stream is drained and must deliver everything that is still owed.
 import asyncio
 import io
 import threading
+import time
 
 RULE = ("random histories (<= 12 operations quick / <= 24 thorough, plus a drain) of add/get/seek/protect on the "
         "real SemiSeekableBuffer and of read/seek/protect(/feed) on the real wrappers, buffer/headroom from (4,1) "
@@ -48,6 +49,9 @@ TRUSTED = [
     "fakes of harness/c17.py: scripted io.BufferedIOBase, scripted asyncio.StreamReader subclass, fake requests "
     "response, synchronous stand-in for asyncio.run_coroutine_threadsafe (cross-checked against a real loop thread)",
 ]
+
+STALL_TIMEOUT = 0.06      # what the library's DEFAULT_TIMEOUT (10 s) is scaled to in the thread-hop runs
+STALL = 0.25              # how long a stalled producer delivers nothing (> the scaled timeout)
 
 SIZES = [(4, 1), (4, 4), (5, 2), (8, 3), (10, 5), (16, 1), (16, 16), (32, 8), (64, 32), (100, 10)]
 BIG_SIZES = [(8192, 1024), (65536, 32768)]
@@ -90,6 +94,16 @@ WITNESSES = [
              ["addp", 0, 10, 4], ["get", 9]], "drain": 3},
 ]
 
+
+# the producer below an asyncio stream stalls for longer than the library's (scaled) timeout;
+# whatever the read does then (wait, or give up with an exception), the consumer carries on
+# and must still receive every byte in order.  Run through the real event-loop thread.
+STALL_WITNESSES = [
+    {"target": "srw", "size": 64, "headroom": 32, "prot": False, "seed": 11, "srclen": 60, "ks": [3] * 40,
+     "ops": [["read", 4], ["read", 4, "stall"], ["read", 4], ["read", 4]], "drain": 4},
+    {"target": "ssw", "size": 65536, "headroom": 32768, "prot": True, "seed": 12, "srclen": 50000, "ks": [8191] * 8,
+     "ops": [["read", 8192], ["read", 8192, "stall"], ["seek", 0], ["prot", 0], ["read", 8192]], "drain": 8192},
+]
 
 # ---------------------------------------------------------------------------------------
 # shared deterministic data / digests (mirrors PyatvModel.C17.pat / digest)
@@ -180,6 +194,7 @@ class ScriptedSource:
         self.off = 0
         self.ks = list(ks)
         self.calls = []
+        self.stall_next = 0.0
 
     def take(self, n):
         self.calls.append(n)
@@ -253,6 +268,10 @@ def make_stream_reader(src, loop):
             if n == 0:
                 src.take(0)
                 return b""
+            if src.stall_next:
+                # the producer stalls: nothing arrives for a while (only with a running loop)
+                delay, src.stall_next = src.stall_next, 0.0
+                await asyncio.sleep(delay)
             chunk = src.take(n)
             if chunk:
                 self.feed_data(chunk)
@@ -489,9 +508,13 @@ class Env:
     def __init__(self, thread_hop=False):
         from pyatv.protocols.raop import audio_source
         self.mod = audio_source
-        self.saved = {k: getattr(audio_source, k) for k in ("asyncio", "requests", "time")}
+        self.saved = {k: getattr(audio_source, k) for k in ("asyncio", "requests", "time", "DEFAULT_TIMEOUT")
+                      if hasattr(audio_source, k)}
         self.thread = None
         if thread_hop:
+            # stalls of the producer are played in real time: scale the library's timeout down
+            if "DEFAULT_TIMEOUT" in self.saved:
+                audio_source.DEFAULT_TIMEOUT = STALL_TIMEOUT
             self.loop = asyncio.new_event_loop()
             self.thread = threading.Thread(target=self.loop.run_forever, daemon=True)
             self.thread.start()
@@ -597,7 +620,15 @@ class Session:
                 return "f:" + bit(r) if isinstance(r, bool) else "err:type"
         else:
             if name == "read":
-                return self._data(self.w.read(op[1]))
+                stalled = len(op) > 2 and op[2] == "stall" and self.env.thread is not None
+                if stalled:
+                    self.src.stall_next = STALL
+                try:
+                    return self._data(self.w.read(op[1]))
+                except Exception:
+                    if stalled:
+                        time.sleep(STALL + 0.1)   # the consumer carries on once the producer has caught up
+                    raise
             if name == "seek":
                 r = self.w.seek(op[1])
                 if t == "srw":
@@ -635,6 +666,8 @@ def model_line(op):
         return "prot %s" % bit(op[1])
     if name == "add":
         return "add %s" % (op[1] or "-")
+    if name == "read":
+        return "read %d" % op[1]          # a stall is invisible to the model: the read just takes longer
     return " ".join([name] + [str(x) for x in op[1:]])
 
 
@@ -670,8 +703,9 @@ class Reference:
 
     def step(self, i, op, token, data):
         name = op[0]
-        if token == "err:WouldWait":
-            return      # the consumer would merely have to wait: not a verdict about the bytes
+        if token in ("err:WouldWait", "err:OperationTimeoutError"):
+            return      # the consumer merely has to wait / gave up waiting: no bytes were delivered,
+                        # the cursor stays where it is and later reads must continue from there
         if token.startswith("err:") and name != "prot":
             self.problem("exception", i, op, "operation raised/returned %s" % token)
             return
@@ -744,6 +778,8 @@ def _run_history(sess, h):
             flags.add("seek-ok" if (token == "f:1" or token == "p:%d" % op[1]) else "seek-fail")
         if op[0] in ("read", "get") and token.startswith("d:") and sess.last and seek_seen:
             flags.add("read-after-seek")
+        if op[0] == "read" and len(op) > 2:
+            flags.add("producer-stall")
         if ice and op[0] in ("fetch", "feed") and token == "f:1" and 0 < len(sess.src.calls) and \
                 sess.src.off < len(sess.S) and sess.src.last_len < op[1]:
             flags.add("short-read-mid-stream")
@@ -925,6 +961,8 @@ def gen_op(rng, sess, h, offered):
             return ["seek", pick_seek(rng, sess, h)]
         return ["prot", rng.choice([0, 1])]
     if r < 0.60:
+        if sess.env.thread is not None and t in ("srw", "ssw") and rng.chance(0.04):
+            return ["read", max(1, len(sess.buffer) + rng.randint(1, 3)), "stall"]
         return ["read", -1 if rng.chance(0.08) else pick_size(rng, sess, h)]
     if r < 0.86:
         return ["seek", pick_seek(rng, sess, h)]
@@ -1034,7 +1072,8 @@ def run(ctx, only=None):
     env = Env(thread_hop=True)
     try:
         gt = rng.fork("thread-hop")
-        hs = [build_history(env, gt, ctx.thorough, targets=["srw", "ssw"]) for _ in range(ctx.scale(40, 200))]
+        hs = [dict(w) for w in STALL_WITNESSES]
+        hs += [build_history(env, gt, ctx.thorough, targets=["srw", "ssw"]) for _ in range(ctx.scale(40, 200))]
         check_histories(ctx, env, hs, "thread")
     finally:
         env.close()
